@@ -43,3 +43,17 @@ func VerifParseArgs(types [][]string, keys []string, defs, asts []bool) []base.T
 	}
 	return parseArguments(args)
 }
+
+// VerifInstallSymValues installs the verification-only builtin class `Sym` whose static
+// methods return the given (possibly symbolic-kind) values, through the real loader path.
+func VerifInstallSymValues(names []string, vals map[string]base.T) {
+	d := NewDefineBuiltinMethod("Builtin", "Sym")
+	base.BuiltinClasses = append(base.BuiltinClasses, "Sym")
+	for _, n := range names {
+		d.defineBuiltinStaticMethod("Builtin", n, nil, vals[n])
+	}
+	classNode := base.ClassNode{Frame: "Builtin", Class: "Sym"}
+	base.ClassInheritanceMap[classNode] =
+		append(base.ClassInheritanceMap[classNode], base.ClassNode{Frame: "Builtin", Class: ""})
+	d.SetDefinedClass()
+}
